@@ -305,6 +305,18 @@ def run(index, rep, tier):
                       "NexusTaxonSymbolMapper.%s files the taxon under %s but not in label_taxon_map: a taxon created by TRANSLATE in a file without TAXA block is then unknown to the mapper by label, and a later tree of the same block that spells the labels out (`tree t2 = (a,(b,c));` after `translate 1 a, 2 b, 3 c;`) gets NEW taxa - the namespace reads a,b,c,a,b,c and the two trees share no taxon" % (mname, " / ".join(sorted({w.attr for w in ws}))))
         rep.floor("R11.12", "mapper methods that file a taxon", 2, n12)
 
+    # ---- R11.13 copying a matrix into another namespace merges no rows
+    with rep.section("R11.13"):
+        rep.rule("R11.13", "copying a matrix into another namespace merges no rows: the loop of CharacterMatrix._clone_from that maps the source's taxa to taxa of the target namespace (by label) refuses - a raise inside the loop - when two taxa that carry rows land on one target taxon; the rows are then copied as a dict keyed by the mapped taxa, where the second row would silently replace the first (the migrate_taxon_namespace route raises TaxonNamespaceReconstructionError for the same input)")
+        cf = index.function("dendropy.datamodel.charmatrixmodel.CharacterMatrix._clone_from")
+        floops = [l for l in walk_no_nested(cf.node) if isinstance(l, ast.For) and any(call_name(c) == "require_taxon" for c in calls_in(l))]
+        if len(floops) != 1:
+            raise AnalysisError("R11.13: the label-mapping loop of CharacterMatrix._clone_from not recognised")
+        raises_ = [x for x in ast.walk(floops[0]) if isinstance(x, ast.Raise)]
+        guarded = [r_ for r_ in raises_ if any(isinstance(i, ast.If) and any(r_ is y for y in ast.walk(i)) and any(isinstance(c, ast.Compare) and isinstance(c.ops[0], (ast.In, ast.NotIn, ast.Is, ast.IsNot)) for c in ast.walk(i.test)) for i in ast.walk(floops[0]))]
+        rep.check(bool(guarded), "R11.13", cf.qualname, "two rows landing on one taxon are merged silently", fn_where(cf, floops[0]), "_clone_from refuses two row-carrying taxa that map to one target taxon",
+                  "CharacterMatrix._clone_from maps every source taxon to `require_taxon(label=...)` of the target namespace and never notices two of them landing on the same taxon: the deep copy then writes both rows under one key, so `DnaCharacterMatrix(cm, taxon_namespace=TaxonNamespace())` of a case-sensitive source holding 'a' and 'A' returns ONE row - the data of 'A' under taxon 'a' - without any error")
+
 
 def _bound(index, fi, w, val):
     """is the stored value bound to self.taxon_namespace on every path?"""
